@@ -21,71 +21,74 @@ Proof. unfold zlen. induction l as [|y r IH]; cbn [rem1 length]; [lia|]. destruc
 Lemma zlen_cons : forall {A} (x : A) l, zlen (x :: l) = zlen l + 1.
 Proof. intros. unfold zlen. cbn [length]. lia. Qed.
 
+Lemma zlen_cons_le : forall (x : nat) l, zlen (x :: l) <= zlen l + 1.
+Proof. intros. rewrite zlen_cons. lia. Qed.
+
 Definition adding (cfg : config) (s : state) (o : op) (p : nat) : bool :=
   match o with
   | Connected p' _ => Nat.eqb p' p && (count (fst (step isort cfg s o)) =? count s + 1)
   | _ => false
   end.
 
-(* termwise: a term grows by at most one, and only for a live entry of the
-   peer a Connected just added a connection to *)
-Lemma uterm_step : forall cfg s o e, inv s -> is_trim o = false ->
+(* one critical section against a measure F of a peer's connection set that
+   grows by at most one per added connection: the measure of the peer, taken
+   only while it is tracked and out of grace, grows by at most one, and only
+   when a Connected just added a connection to it *)
+Lemma term_step_gen : forall cfg s o q g (F : list nat -> Z), inv s -> is_trim o = false ->
+  (forall x l, F (x :: l) <= F l + 1) -> (forall c l, F (rem1 c l) <= F l) -> F [] = 0 -> (forall l, 0 <= F l) ->
   let s' := fst (step isort cfg s o) in
-  uterm s' (relive_e s' e) <= uterm s e
+  (if tracked s' q && incl s' g q then F (conns_of s' q) else 0)
+  <= (if incl s g q then F (conns_of s q) else 0) + (if adding cfg s o q then 1 else 0).
+Proof.
+  intros cfg s o q g F Hinv Ho F1 F2 F0 Fn. cbv zeta.
+  pose proof (step_conns_cases cfg s o q Hinv Ho) as Hcase. cbv zeta in Hcase.
+  pose proof (step_first_cases cfg s o q Hinv Ho) as Hfirst. cbv zeta in Hfirst.
+  remember (fst (step isort cfg s o)) as s' eqn:Es.
+  assert (Hle : F (conns_of s' q) <= F (conns_of s q) + (if adding cfg s o q then 1 else 0)).
+  { destruct Hcase as [[x [Ho' [Hc Hx]]]|[[Heq _]|[c [Hr _]]]].
+    - rewrite Hx. assert (Ha : adding cfg s o q = true).
+      { unfold adding. rewrite <- Es. rewrite Ho'. cbv iota beta. rewrite Nat.eqb_refl. cbn [andb]. apply Z.eqb_eq. exact Hc. }
+      rewrite Ha. apply F1.
+    - rewrite Heq. destruct (adding _ _ _ _); lia.
+    - rewrite Hr. pose proof (F2 c (conns_of s q)). destruct (adding _ _ _ _); lia. }
+  assert (Hadd : 0 <= (if adding cfg s o q then 1 else 0)) by (destruct (adding _ _ _ _); lia).
+  pose proof (Fn (conns_of s q)) as Hn.
+  destruct (tracked s' q) eqn:Et'; cbn [andb]; [|destruct (incl s g q); lia].
+  destruct (tracked s q) eqn:Et.
+  - unfold tracked in Et, Et'. destruct (Hfirst Et Et') as [[E1 _]|[x [_ [_ [_ [_ [Hc0 _]]]]]]].
+    + unfold incl. rewrite E1. destruct (p_first (peer_at s q) <=? g); lia.
+    + rewrite Hc0, F0 in *. destruct (incl s' g q), (incl s g q); lia.
+  - assert (Hc0 : conns_of s q = []).
+    { unfold conns_of, tracked in *. destruct (peer_at_ok s q Hinv) as [Hu _]. rewrite (Hu Et). reflexivity. }
+    rewrite Hc0, F0 in *. destruct (incl s' g q), (incl s g q); lia.
+Qed.
+
+Lemma uterm_step : forall cfg s o g e, inv s -> is_trim o = false ->
+  let s' := fst (step isort cfg s o) in
+  uterm s' g (relive_e s' e) <= uterm s g e
      + (if adding cfg s o (ce_p e) && (ce_live e && negb (ce_done e)) then 1 else 0).
 Proof.
-  intros cfg s o e Hinv Ho. cbv zeta.
-  pose proof (step_conns_cases cfg s o (ce_p e) Hinv Ho) as Hcase. cbv zeta in Hcase.
-  remember (fst (step isort cfg s o)) as s' eqn:Es.
+  intros cfg s o g e Hinv Ho. cbv zeta.
+  pose proof (term_step_gen cfg s o (ce_p e) g (fun l => zlen l) Hinv Ho) as H. cbv zeta beta in H.
+  specialize (H (fun x l => zlen_cons_le x l) (fun c l => zlen_rem1_le c l) eq_refl (fun l => zlen_nonneg l)).
   unfold uterm, relive_e. cbn [ce_live ce_done ce_p].
-  destruct (ce_live e && negb (ce_done e)) eqn:El.
-  - apply andb_true_iff in El. destruct El as [El1 El2]. rewrite El1, El2. cbn [andb]. rewrite andb_true_r.
-    pose proof (zlen_nonneg (conns_of s (ce_p e))) as Hn.
-    assert (Hle : zlen (conns_of s' (ce_p e)) <= zlen (conns_of s (ce_p e)) + (if adding cfg s o (ce_p e) then 1 else 0)).
-    { destruct Hcase as [[x [Ho' [Hc Hx]]]|[[Heq _]|[c [Hr _]]]].
-      - rewrite Hx, zlen_cons. assert (Ha : adding cfg s o (ce_p e) = true).
-        { unfold adding. rewrite <- Es. rewrite Ho'. cbv iota beta. rewrite Nat.eqb_refl. cbn [andb].
-          apply Z.eqb_eq. exact Hc. }
-        rewrite Ha. lia.
-      - rewrite Heq. destruct (adding _ _ _ _); lia.
-      - rewrite Hr. pose proof (zlen_rem1_le c (conns_of s (ce_p e))).
-        destruct (adding _ _ _ _); lia. }
-    rewrite ?andb_true_r. destruct (tracked s' (ce_p e)); [exact Hle|]. destruct (adding _ _ _ _); lia.
-  - assert (E : ce_live e && tracked s' (ce_p e) && negb (ce_done e) = false).
-    { destruct (ce_live e), (ce_done e), (tracked s' (ce_p e)); cbn in *; try reflexivity; discriminate. }
-    rewrite E, andb_false_r. lia.
+  destruct (ce_live e), (ce_done e); cbn [andb negb]; rewrite ?andb_false_r, ?andb_true_r; cbn [andb]; try lia.
 Qed.
 
 Lemma filter_cons_le : forall (f : nat -> bool) x l, zlen (filter f (x :: l)) <= zlen (filter f l) + 1.
 Proof. intros. cbn [filter]. destruct (f x); [rewrite zlen_cons|]; lia. Qed.
 
-Lemma dterm_step : forall cfg s o sel e, inv s -> is_trim o = false ->
+Lemma dterm_step : forall cfg s o g sel e, inv s -> is_trim o = false ->
   let s' := fst (step isort cfg s o) in
-  dterm s' sel (relive_e s' e) <= dterm s sel e
+  dterm s' g sel (relive_e s' e) <= dterm s g sel e
      + (if adding cfg s o (ce_p e) && (ce_live e && ce_done e) then 1 else 0).
 Proof.
-  intros cfg s o sel e Hinv Ho. cbv zeta.
-  pose proof (step_conns_cases cfg s o (ce_p e) Hinv Ho) as Hcase. cbv zeta in Hcase.
-  remember (fst (step isort cfg s o)) as s' eqn:Es.
-  unfold dterm, relive_e, rem_m. cbn [ce_live ce_done ce_p].
+  intros cfg s o g sel e Hinv Ho. cbv zeta.
   set (f := fun c => negb (memp (ce_p e, c) sel)).
-  destruct (ce_live e && ce_done e) eqn:El.
-  - apply andb_true_iff in El. destruct El as [El1 El2]. rewrite El1, El2. cbn [andb]. rewrite andb_true_r.
-    pose proof (zlen_nonneg (filter f (conns_of s (ce_p e)))) as Hn.
-    assert (Hle : zlen (filter f (conns_of s' (ce_p e))) <= zlen (filter f (conns_of s (ce_p e)))
-                  + (if adding cfg s o (ce_p e) then 1 else 0)).
-    { destruct Hcase as [[x [Ho' [Hc Hx]]]|[[Heq _]|[c [Hr _]]]].
-      - rewrite Hx. pose proof (filter_cons_le f x (conns_of s (ce_p e))). assert (Ha : adding cfg s o (ce_p e) = true).
-        { unfold adding. rewrite <- Es. rewrite Ho'. cbv iota beta. rewrite Nat.eqb_refl. cbn [andb].
-          apply Z.eqb_eq. exact Hc. }
-        rewrite Ha. lia.
-      - rewrite Heq. destruct (adding _ _ _ _); lia.
-      - rewrite Hr. pose proof (filter_rem1_le f c (conns_of s (ce_p e))).
-        destruct (adding _ _ _ _); lia. }
-    rewrite ?andb_true_r. destruct (tracked s' (ce_p e)); [exact Hle|]. destruct (adding _ _ _ _); lia.
-  - assert (E : ce_live e && tracked s' (ce_p e) && ce_done e = false).
-    { destruct (ce_live e), (ce_done e), (tracked s' (ce_p e)); cbn in *; try reflexivity; discriminate. }
-    rewrite E, andb_false_r. lia.
+  pose proof (term_step_gen cfg s o (ce_p e) g (fun l => zlen (filter f l)) Hinv Ho) as H. cbv zeta beta in H.
+  specialize (H (fun x l => filter_cons_le f x l) (fun c l => filter_rem1_le f c l) eq_refl (fun l => zlen_nonneg _)).
+  unfold dterm, relive_e, rem_m. cbn [ce_live ce_done ce_p]. fold f.
+  destruct (ce_live e), (ce_done e); cbn [andb negb]; rewrite ?andb_false_r, ?andb_true_r; cbn [andb]; try lia.
 Qed.
 
 (* the ghost counters move exactly as the indicator sums *)
@@ -117,24 +120,24 @@ Proof.
   - rewrite H0. apply zsum_map_zero. intros e _. rewrite andb_false_r. reflexivity.
 Qed.
 
-Lemma aop_sums : forall cfg s o l sel, inv s -> is_trim o = false -> NoDup (map ce_p l) ->
+Lemma aop_sums : forall cfg s o g l sel, inv s -> is_trim o = false -> NoDup (map ce_p l) ->
   let s' := fst (step isort cfg s o) in
-  dsum s' sel (relive s' l) <= dsum s sel l + fst (charge cfg s o l)
-  /\ usum s' (relive s' l) <= usum s l + snd (charge cfg s o l).
+  dsum s' g sel (relive s' l) <= dsum s g sel l + fst (charge cfg s o l)
+  /\ usum s' g (relive s' l) <= usum s g l + snd (charge cfg s o l).
 Proof.
-  intros cfg s o l sel Hinv Ho Hnd s'. split.
+  intros cfg s o g l sel Hinv Ho Hnd s'. split.
   - unfold dsum, relive. rewrite map_map.
     rewrite <- (charge_sum cfg s o l (fun e => ce_live e && ce_done e) fst Hnd);
       [|intros e; destruct (ce_live e), (ce_done e); reflexivity|reflexivity].
-    change (fun x => dterm s' sel (mkCE (ce_p x) (ce_live x && tracked s' (ce_p x)) (ce_done x) (ce_first x)))
-      with (fun x => dterm s' sel (relive_e s' x)).
+    change (fun x => dterm s' g sel (mkCE (ce_p x) (ce_live x && tracked s' (ce_p x)) (ce_done x) (ce_first x)))
+      with (fun x => dterm s' g sel (relive_e s' x)).
     induction l as [|e r IH]; cbn [map zsum]; [lia|]. inversion Hnd; subst.
-    pose proof (dterm_step cfg s o sel e Hinv Ho) as Ht. cbv zeta in Ht. fold s' in Ht. specialize (IH H2). lia.
+    pose proof (dterm_step cfg s o g sel e Hinv Ho) as Ht. cbv zeta in Ht. fold s' in Ht. specialize (IH H2). lia.
   - unfold usum, relive. rewrite map_map.
     rewrite <- (charge_sum cfg s o l (fun e => ce_live e && negb (ce_done e)) snd Hnd);
       [|intros e; destruct (ce_live e), (ce_done e); reflexivity|reflexivity].
-    change (fun x => uterm s' (mkCE (ce_p x) (ce_live x && tracked s' (ce_p x)) (ce_done x) (ce_first x)))
-      with (fun x => uterm s' (relive_e s' x)).
+    change (fun x => uterm s' g (mkCE (ce_p x) (ce_live x && tracked s' (ce_p x)) (ce_done x) (ce_first x)))
+      with (fun x => uterm s' g (relive_e s' x)).
     induction l as [|e r IH]; cbn [map zsum]; [lia|]. inversion Hnd; subst.
-    pose proof (uterm_step cfg s o e Hinv Ho) as Ht. cbv zeta in Ht. fold s' in Ht. specialize (IH H2). lia.
+    pose proof (uterm_step cfg s o g e Hinv Ho) as Ht. cbv zeta in Ht. fold s' in Ht. specialize (IH H2). lia.
 Qed.
